@@ -17,6 +17,8 @@ GENERATORS = {
     "C06": ["infix"],
     "C13": ["logics"],
     "C07": ["printerops"],
+    "C08": ["parserops"],
+    "C09": ["parserops"],
     "C16": ["pendingpop"],
 }
 
